@@ -18,7 +18,9 @@ use lazy_static::lazy_static;
 
 #[derive(Default)]
 struct RegistryCore {
-    pub collectors_by_id: HashMap<u64, Box<dyn Collector>>,
+    /// Collectors keyed by the sorted ids of their descriptors. (The sum of the
+    /// ids is not an identifier: different descriptor sets can share it.)
+    pub collectors_by_id: HashMap<Vec<u64>, Box<dyn Collector>>,
     pub dim_hashes_by_name: HashMap<String, u64>,
     pub desc_ids: HashSet<u64>,
     /// Optional common labels for all registered collectors.
@@ -40,7 +42,7 @@ impl std::fmt::Debug for RegistryCore {
 impl RegistryCore {
     fn register(&mut self, c: Box<dyn Collector>) -> Result<()> {
         let mut desc_id_set = HashSet::new();
-        let mut collector_id: u64 = 0;
+        let mut collector_id: Vec<u64> = Vec::new();
         // Dimension hashes of this collector's descriptors. They are only
         // recorded in the registry once the whole registration has succeeded.
         let mut new_dim_hashes: HashMap<String, u64> = HashMap::new();
@@ -74,7 +76,7 @@ impl RegistryCore {
             // the collector_id.
             if desc_id_set.insert(desc.id) {
                 // The set did not have this value present, true is returned.
-                collector_id = collector_id.wrapping_add(desc.id);
+                collector_id.push(desc.id);
             } else {
                 // The set did have this value present, false is returned.
                 //
@@ -87,6 +89,7 @@ impl RegistryCore {
             }
         }
 
+        collector_id.sort_unstable();
         match self.collectors_by_id.entry(collector_id) {
             HEntry::Vacant(vc) => {
                 self.desc_ids.extend(desc_id_set);
@@ -100,13 +103,13 @@ impl RegistryCore {
 
     fn unregister(&mut self, c: Box<dyn Collector>) -> Result<()> {
         let mut id_set = Vec::new();
-        let mut collector_id: u64 = 0;
         for desc in c.desc() {
             if !id_set.contains(&desc.id) {
                 id_set.push(desc.id);
-                collector_id = collector_id.wrapping_add(desc.id);
             }
         }
+        let mut collector_id = id_set.clone();
+        collector_id.sort_unstable();
 
         if self.collectors_by_id.remove(&collector_id).is_none() {
             return Err(Error::Msg(format!(
